@@ -75,7 +75,14 @@ def _dispatch(eng, case, front):
         before = dict(model)
         try:
             if op == 0:
-                if front == 'v2':
+                if front == 'v2' and case.get('route') and eng.choice(2, 'via-route'):
+                    # the decorator form of attaching (before connecting: no registration command is due)
+                    face.running = False
+                    try:
+                        target.route(key, pass_v2)(mk(j))
+                    finally:
+                        face.running = True
+                elif front == 'v2':
                     target.attach_handler(key, mk(j), pass_v2)
                 elif front == 'v1':
                     target.set_interest_filter(key, mk(j))
@@ -247,6 +254,12 @@ def cases(tier, seed):
     for h in ('dispatch_v2', 'dispatch_v1', 'dispatch_disp'):
         for n in (0, 1, 2):
             cs.append((h, {'ops': n}, {'weight': 1 + 60 ** n // 30, 'split_depth': 3 if n >= 2 else None}))
+        if h == 'dispatch_v2':
+            # attach through the route() decorator or through attach_handler, by choice, on a small tree
+            cs.append((h, {'ops': 2, 'route': True, 'prefixes': ['/a', '/a/a'], 'inames': ['/a', '/a/a', '/a/a/z', '/b']},
+                       {'weight': 20}))
+            cs.append((h, {'ops': 3, 'route': True, 'reprs': [0, 2, 1], 'prefixes': ['/a', '/a/a'],
+                           'inames': ['/a', '/a/a/z']}, {'weight': 60, 'split_depth': 4}))
         # three / four operations: key representation fixed per position (all four occur), 5-prefix subtree
         for reprs in ([0, 1, 2], [3, 2, 0], [1, 3, 3]):
             if quick and h != 'dispatch_v2' and reprs != [0, 1, 2]:
